@@ -47,7 +47,9 @@ FAMILY_ORDER = ["fr", "couk", "idn", "ghio", "lang", "special"]
 PATHS = ["", "/", "/a", "/a/", "/a/b", "/a//b", "/a/b/", "/a/index.html", "/a/./b", "/A", "/%61", "/a/b.html", "/a/b/c", "/a|b", "/a/Foo|Bar", "/a|b/c", "/a||b", "/a|/b",
          # spellings the URL-level functions merge: '..' climbing above the root, and
          # the letter case of an escape that stays quoted
-         "/../a", "/a/../../a/b", "/a%3Fb", "/a%3fb"]
+         "/../a", "/a/../../a/b", "/a%3Fb", "/a%3fb",
+         # an escaped pipe is just text; a padded URL is its own spelling
+         "/a%7Cb", "/a%7cb", "/a "]
 QUERIES = ["", "x=1", "x=1&y=2", "y=2&x=1", "utm_source=z&x=1", "x=1&utm_source=z", "X=1", "hl=fr&x=1", "k=a|b", "k=%3d1", "k=%3D1"]
 FRAGMENTS = ["", "#f", "#/route", "#!/route"]
 PORTS = ["", ":80", ":443", ":8080", ":"]
